@@ -36,7 +36,7 @@ func (c complement) M() int {
 }
 
 func (c complement) IsEdge(i, j int) bool {
-	return !c.g.IsEdge(i, j)
+	return i != j && !c.g.IsEdge(i, j)
 }
 
 //Neighbours returns the neighbours of the vertex v.
